@@ -165,7 +165,9 @@ def position_class(body, fault, log):
     if fault["kind"] == "none":
         return "none"
     if fault["kind"] == "command":
-        return "cmd:" + fault.get("command_kind", "?")
+        return "cmd:" + fault.get("command_kind", "?") + (":big-output" if fault.get("output") else "")
+    if fault["kind"] == "spawn":
+        return "spawn-failure"
     if fault["kind"] == "preprocessor-panic":
         return "panic-in-preprocessor"
     path, idx = fault["point"]
@@ -197,6 +199,9 @@ def run_tree(env, tidx, tree, sh):
         return
     ncmds = len(log)
     faults = [{"kind": "command", "seq": j, "command_kind": log[j]["kind"]} for j in range(ncmds)]
+    faults += [{"kind": "command", "seq": j, "command_kind": log[j]["kind"], "output": "big-unicode"} for j in range(ncmds) if (j + tidx) % 2 == 0]
+    # pack disappears (cannot be spawned) right before a later pack build, i.e. before a rebuild
+    faults += [{"kind": "spawn", "seq": j, "command_kind": "pack build (spawn fails)"} for j in range(1, ncmds) if log[j]["kind"] == "pack build"]
     faults += [{"kind": "panic", "point": p} for p in count_panic_points(body)]
     if cfg.get("preprocessor"):
         faults.append({"kind": "preprocessor-panic"})
@@ -205,15 +210,23 @@ def run_tree(env, tidx, tree, sh):
         plan = {}
         if fault["kind"] == "command":
             plan = {"fail_seq": fault["seq"], "exit": 1}
+            if fault.get("output"):
+                plan["fail_output"] = fault["output"]
+        elif fault["kind"] == "spawn":
+            plan = {"remove_prog_after_seq": {"seq": fault["seq"] - 1, "prog": "pack"}}
         elif fault["kind"] == "panic":
             sc["builds"][0]["body"] = insert_panic(body, fault["point"])
         else:
             sc["builds"][0]["config"]["preprocessor"]["panic"] = True
         rc, err, log2, left = env.run(sc, plan)
         sh.evaluations += 1
-        what = "scenario %r with %s" % (shape_of(body), ("command #%d (%s) failing" % (fault["seq"], fault["command_kind"])) if fault["kind"] == "command" else
+        what = "scenario %r with %s" % (shape_of(body), ("command #%d (%s) failing%s" % (fault["seq"], fault["command_kind"], " with >64 KiB of non-ASCII output" if fault.get("output") else "")) if fault["kind"] == "command" else
+                                        ("pack disappearing from PATH before command #%d" % fault["seq"]) if fault["kind"] == "spawn" else
                                         ("a panic at %r" % (fault["point"],)) if fault["kind"] == "panic" else "a panic in the app-dir preprocessor")
         case = dict(case0, fault=fault, scenario=sc, plan=plan)
+        if fault["kind"] == "spawn" and (os.path.lexists(os.path.join(env.bin, "pack")) or rc == 0):
+            sh.inconclusive.append("%s: the scripted disappearance of pack did not take effect" % what)
+            continue
         if fault["kind"] == "command" and not any(e["failed"] for e in log2):
             sh.inconclusive.append("%s: the scripted command failure never fired" % what)
             continue
